@@ -125,6 +125,13 @@ where
         loop {
             // accept the next incoming connection
             let (stream, addr) = select! {
+                // a stop request comes first: a connection that arrives after it is never taken,
+                // even if both are found ready at the same time
+                biased;
+                _ = stop.cancelled() => {
+                    info!("stopping listener");
+                    break;
+                },
                 accepted = listener.accept() => match accepted {
                     Ok(accepted) => accepted,
                     // accepting may fail for this one connection (aborted by the peer) or for a
@@ -134,10 +141,6 @@ where
                         tokio::time::sleep(Duration::from_millis(50)).await;
                         continue;
                     }
-                },
-                _ = stop.cancelled() => {
-                    info!("stopping listener");
-                    break;
                 },
             };
             #[cfg(feature = "verif-hooks")]
